@@ -494,7 +494,9 @@ def loop_cases() -> Any:
             for j, off in enumerate(shots):
                 ents.append({"id": f"o{si}_{j}", "t_off_us": off, "naive": True, "add_at": 0, "remove_at": None})
             cancel = [ents[0]["id"]] if cancel_first and ents else []
-            sources.append({"kind": "scripted", "entries": ents, "fail_polls": [], "list_latency": lat, "cancel": cancel})
+            # a source whose post_send raises once for its last entry - AFTER that message has been sent
+            post_fail = [ents[-1]["id"]] if d["post_fails"] and ents and ents[-1]["id"] not in cancel else []
+            sources.append({"kind": "scripted", "entries": ents, "fail_polls": [], "list_latency": lat, "cancel": cancel, "post_fail": post_fail})
         return {"loop": True, "base_us": base, "horizon_min": 2, "sources": sources, "latencies": [0.0], "kick_fail": []}
 
     src = st.tuples(st.sampled_from([0.0, 0.0, 0.05, 0.2, 1.5]), st.lists(st.sampled_from([-30 * _SEC, 0, 20 * _SEC, 61 * _SEC, 90 * _SEC]), max_size=2),
@@ -502,6 +504,7 @@ def loop_cases() -> Any:
     return st.fixed_dictionaries({
         "base": st.integers(_clock.to_us(dtm.datetime(2024, 1, 1, tzinfo=_clock.UTC)), _clock.to_us(dtm.datetime(2025, 1, 1, tzinfo=_clock.UTC))),
         "bsec": st.sampled_from([0, 10, 30, 59]),
+        "post_fails": st.sampled_from([False, False, True]),
         "sources": st.lists(src, min_size=2, max_size=3),
     }).map(fin)
 
@@ -532,12 +535,23 @@ def run_loop_case(case: Dict[str, Any]) -> Outcome:
             out.add("C16.a", f"schedule {sid} was sent without pre_send of its own source {owner.get(sid)} before it")
         if k["ok"] and not post:
             out.add("C16.a", f"schedule {sid} was sent but post_send of its own source {owner.get(sid)} was not called")
+    per: Dict[Any, int] = {}
+    is_cron = {e["id"]: "cron" in e for s_ in case["sources"] for e in s_["entries"]}
+    for k in kicks:
+        key = (k["tag"], k["t"] // _MIN if is_cron.get(k["tag"]) else None)
+        per[key] = per.get(key, 0) + 1
+    # with a source that needs time to answer, a one-shot sent between the moment the listing was taken and the moment it is
+    # returned is listed once more (a stale answer of the source, outside this property): count only with instant listings
+    instant = all(not s_.get("list_latency") for s_ in case["sources"])
+    for (sid, minute), n_ in sorted(per.items(), key=repr):
+        if n_ > 1 and instant:
+            out.add("C16.b", f"one firing of schedule {sid} produced {n_} messages" + (" (its source's post_send raised once after the send)" if any(sid in s_.get("post_fail", ()) for s_ in case["sources"]) else ""))
     for sid in cancelled:
         if any(h[1] == "post_send" and h[2] == sid for hs in hooks.values() for h in hs):
             out.add("C16.a", f"post_send was called for the cancelled schedule {sid}")
     lats = [s.get("list_latency", 0) for s in case["sources"]]
     out.nontrivial = bool(kicks and any(a > b for a, b in zip(lats, lats[1:])))
-    out.classes = ["loop"] + (["earlier_source_answers_later"] if any(a > b for a, b in zip(lats, lats[1:])) else []) + (["cancelling_source"] if cancelled else [])
+    out.classes = ["loop"] + (["earlier_source_answers_later"] if any(a > b for a, b in zip(lats, lats[1:])) else []) + (["cancelling_source"] if cancelled else []) + (["post_send_raises_once"] if any(s_.get("post_fail") for s_ in case["sources"]) else [])
     out.trace = {"kicks": [[k["tag"], k["ok"]] for k in kicks[:12]], "hooks": {n: [[h[1], h[2]] for h in hs[:8]] for n, hs in hooks.items()}}
     return out
 
